@@ -314,6 +314,10 @@ class ZkProveBN(_ZkProve):
 class ZkProveBellman(_ZkProve):
     """zkifbellman: BLS12-381 scalar field"""
     name = ZKIF + ":prove#bellman"
+    # C19: "the reported backend name identifies ... the field it works in": the files this backend writes announce
+    # and use the field of the NAMED configuration (the derived backends are the generic module after set_modulus)
+    vprops = ("C13", "C11", "C19")
+    fprops = ("C13", "C11", "C19")
     pre_import = ("pysnark.zkinterface.backendbellman",)
     expected_modulus = BLS12_381_R
 
@@ -322,6 +326,10 @@ class ZkProveBellman(_ZkProve):
 class ZkProveBulletproofs(_ZkProve):
     """zkifbulletproofs: Curve25519 group order"""
     name = ZKIF + ":prove#bulletproofs"
+    # C19: "the reported backend name identifies ... the field it works in": the files this backend writes announce
+    # and use the field of the NAMED configuration (the derived backends are the generic module after set_modulus)
+    vprops = ("C13", "C11", "C19")
+    fprops = ("C13", "C11", "C19")
     pre_import = ("pysnark.zkinterface.backendbulletproofs",)
     expected_modulus = CURVE25519_L
 
